@@ -1042,6 +1042,7 @@ class PolarsModel(data_algebra.data_model.DataModel):
                 right_on=op.on_b,
                 how=how,
                 suffix="_da_right_tmp",
+                coalesce=(True if how != "cross" else None),
             )
             if len(coalesce_columns) > 0:
                 res = res.with_columns(
